@@ -52,6 +52,21 @@ def _long_shard(shard, n, tier, seed):
             check(p["src"].replace("\n", "\r\n"), p["id"] + "/crlf")
             if p["src"]:
                 check(p["src"][:rng.randrange(len(p["src"]))], p["id"] + "/cut")
+    # format-spec grid: every fill (incl. line breaks, wide and combining characters) x alignment x rest of the spec, inside an
+    # interpolated string with tokens before and after it (the options token is the only one whose text may hold a line break
+    # besides strings and comments, and alignment characters are outside the exhaustive alphabets)
+    fills = ["", "\n", "\r\n", "\r", "\t", " ", "é", "漢", "😀", "e\u0301", "👍🏽", "x", "0", "<", ">", "}", "{", ":", "'", "\\", "\n\n"]
+    rests = ["", "3", "03", ".2", "5.1", "\n", "3\n", "e", "?", "#x", "\n<"]
+    cell = 0
+    for fill in fills:
+        for align in ("<", "^", ">", ""):
+            for rest in rests:
+                for q in ("'", '"'):
+                    for prefix, suffix in (("", ""), ("x = 1\n", "\ny"), ("  ", " 'z'"), ("f ", "\n  y\n"), ("", "{x:" + fill + align + "}" + q + "\nz")):
+                        cell += 1
+                        if cell % n == shard:
+                            body = "{x:" + fill + align + rest + "}"
+                            check(prefix + q + body + q + suffix if not suffix.startswith("{") else prefix + q + body + suffix, "format-spec")
     # random long inputs assembled from corpus tokens and alphabet symbols
     bag = []
     for p in rng.sample(progs, min(40, len(progs))):
@@ -121,7 +136,7 @@ def run(tier, seed):
     cov["evaluations"] += lev
     cov["token_kinds_seen"] = sorted(cov["token_kinds_seen"])
     cov["rule"] = ("exhaustive: every string of length <= %d over the 23-symbol alphabet%s (each enumerated string is distinct; the "
-                   "enumeration is complete, hence exhaustive=true for that part); plus corpus files, their CRLF and cut variants and "
+                   "enumeration is complete, hence exhaustive=true for that part); plus corpus files, their CRLF and cut variants, a grid of 9 240 interpolated strings with a format spec (21 fills incl. LF / CRLF / wide / combining x 4 alignments x 11 spec tails x 2 quotes x 5 contexts) and "
                    "seeded random inputs (distinct = distinct inputs with >= 3 tokens). peek(n) stability is checked on a 1/4099 sample "
                    "and on every long input." % (main_len, "" if quick else " and length <= 8 over the 14-symbol sub-alphabet"))
     return chk.finish(cov, assumptions=["indentation is read as the leading whitespace of the logical line (as delimited by NewLine tokens)",
